@@ -276,6 +276,10 @@ def judge_c02(rec):
 def judge_c04(rec):
     out = []
     fin = rec['final']
+    for a in rec['acts']:
+        if a['kind'] in ('pause', 'kill') and a.get('ret_in_process_loop') is False:
+            out.append(V('request-future-foreign-loop', 'request-future-foreign-loop:%s' % a['kind'], 'the future handed back by %s() (requested at %s by code '
+                         'running under another current loop) does not belong to the loop of the process: awaiting it there fails' % (a['kind'], a['phase'])))
     facts = _history_facts(rec)
     acts = rec['acts']
     # a kill whose future was cancelled by the requester (before it resolved) was withdrawn; one pending when the stepping task was
@@ -351,6 +355,10 @@ def resume_values_delivered(rec):
 def judge_c05(rec, check_trace=True):
     out = []
     acts = rec['acts']
+    for a in acts:
+        if a['kind'] in ('pause', 'kill') and a.get('ret_in_process_loop') is False:
+            out.append(V('request-future-foreign-loop', 'request-future-foreign-loop:%s' % a['kind'], 'the future handed back by %s() (requested at %s by code '
+                         'running under another current loop) does not belong to the loop of the process: awaiting it there fails' % (a['kind'], a['phase'])))
     pat = lambda n: '>'.join(act_pattern(rec, upto=n, plan_only=False))  # noqa: E731
     for e in rec['events']:
         if e[0] == 'trace' and e[1] == 'enter' and e[3]:
